@@ -129,6 +129,46 @@ def schedule_model_check(scratch: Path, tier: str):
     return states, n
 
 
+def schedule_apalache(scratch: Path):
+    """Unbounded safety of Schedule.tla: Apalache discharges the inductive invariant of MC_Schedule.tla for
+    all values of the constants (base case, inductive step, invariant => the loss bounds)."""
+    import shutil
+    import subprocess
+    import time
+
+    exe = shutil.which("apalache-mc")
+    if exe is None:
+        return {"status": "unavailable"}
+    d = scratch / "apa_schedule"
+    d.mkdir()
+    spec_dir = Path(__file__).resolve().parent.parent / "spec"
+    shutil.copy(spec_dir / "apalache" / "MC_Schedule.tla", d / "MC_Schedule.tla")   # (EXTENDS Apalache: kept out
+    for f in ("Schedule.tla", "ScheduleOps.tla"):                                    #  of the directory SANY walks)
+        shutil.copy(spec_dir / f, d / f)
+    steps = [("base", ["--init=Init", "--inv=IndInv", "--length=0"]),
+             ("step", ["--init=IndInit", "--inv=IndInv", "--length=1"]),
+             ("goal", ["--init=IndInit", "--inv=Goal", "--length=0"])]
+    out = {"status": "ran", "outcomes": {}}
+    t0 = time.time()
+    for name, args in steps:
+        try:
+            p = subprocess.run([exe, "check", "--cinit=ConstInit", *args, f"--out-dir={d / ('out_' + name)}",
+                                "MC_Schedule.tla"], cwd=d, capture_output=True, text=True, timeout=900)
+            txt = p.stdout + p.stderr
+            res = "NoError" if "The outcome is: NoError" in txt else \
+                ("Error" if "The outcome is: Error" in txt else "Failed: " + txt[-300:])
+        except subprocess.TimeoutExpired:
+            res = "Timeout"
+        out["outcomes"][name] = res
+        if res == "Timeout":
+            out["status"] = "timeout"
+        elif res != "NoError":
+            raise MachineryError(f"Apalache MC_Schedule {name}: {res} (a modelling error in Schedule.tla / its "
+                                 "inductive invariant, not a verdict about the code)")
+    out["wall_s"] = round(time.time() - t0, 1)
+    return out
+
+
 SIM_CFG = """SPECIFICATION SimSpec
 CONSTANTS
   NLive = 10
@@ -272,9 +312,12 @@ def run_property(prop: str, tier: str, specs, *, level="model_checking", crash_i
             prediction = predict_ckpt_on_training(scratch)
             v.note(f"NestedSampler.tla with checkpoint_on_training inside the critical section + kill: {prediction}")
         sched_states = sched_cfgs = 0
+        sched_apa = None
         if prop == "C12":
             sched_states, sched_cfgs = schedule_model_check(scratch, tier)
             v.note(f"Schedule.tla: {sched_cfgs} configurations, {sched_states} states")
+            sched_apa = schedule_apalache(scratch)
+            v.note(f"MC_Schedule.tla (Apalache, inductive invariant for all constants): {sched_apa}")
         n_scripted = 0
         if scripted:
             sspecs, n_sim = scripted_specs(scratch, tier, seed, v)
@@ -430,7 +473,7 @@ def run_property(prop: str, tier: str, specs, *, level="model_checking", crash_i
             "train_policy_calls_validated": sum(1 for p_ in packed for e_ in p_ if e_["ev"] in ("train_check", "train_call")),
             "trainings_with_reset": sum(1 for p_ in packed for e_ in p_
                                         if e_["ev"] == "train_call" and (e_.get("reset_w") or e_.get("reset_p"))),
-            "schedule_model": {"configurations": sched_cfgs, "states": sched_states},
+            "schedule_model": {"configurations": sched_cfgs, "states": sched_states, "apalache_unbounded": sched_apa},
             "checkpoint_calls_validated": sum(1 for p_ in packed for e_ in p_ if e_["ev"] == "ckpt_call")
             + (sum(1 for p_ in ipacked for e_ in p_ if e_["ev"] == "ckpt_call") if ins_stats else 0),
             "spec_prediction_checkpoint_on_training": prediction,
